@@ -772,7 +772,7 @@ def mutate(rng, text):
 
 class C16(Check):
     pid = "C16"
-    lean_modules = ["MTProps.C16", "MTProps.CodeReaders", "MTProps.CodeReaderAff"]
+    lean_modules = ["MTProps.C16", "MTProps.CodeReaders", "MTProps.CodeReaderAff", "MTProps.CodeSafe"]
 
     def on_crash(self, op, cid, line, err, rc):
         # for C16 the crash itself is the failing input
